@@ -97,6 +97,12 @@ type faultSpec struct {
 	fetchFail   map[int]bool
 	storeFail   bool
 	storeLanded bool
+	// storeBlocked: badger refuses writes (ErrBlockedWrites, the state its Close and DropAll put it in first) while reads
+	// still work, for the duration of the request.
+	storeBlocked bool
+	// storeClosing: shutdown begins (the service context is cancelled, the rules store starts closing) while the
+	// request stands at its state write; the store is reopened after the request.
+	storeClosing bool
 	signFail    map[int]bool
 }
 
@@ -109,6 +115,10 @@ func parseFaults(s string) *faultSpec {
 		switch {
 		case tok == "s":
 			f.storeFail = true
+		case tok == "b":
+			f.storeBlocked = true
+		case tok == "c":
+			f.storeClosing = true
 		case tok == "S":
 			f.storeFail = true
 			f.storeLanded = true
@@ -126,5 +136,5 @@ func parseFaults(s string) *faultSpec {
 }
 
 func (f *faultSpec) any() bool {
-	return len(f.fetchFail) > 0 || f.storeFail || len(f.signFail) > 0
+	return len(f.fetchFail) > 0 || f.storeFail || f.storeBlocked || f.storeClosing || len(f.signFail) > 0
 }
